@@ -1,48 +1,72 @@
 """C15: rate limiter decides every call within its timeout; rejected calls go nowhere."""
 from ratelimiter_common import *
 PROP = "C15"
-RULE = ("as C02; callers are polled whenever woken (bursts) and also lazily (random); drops while sleeping; idle gaps of (about) two periods followed by limit+1 fresh callers at one "
-        "instant or spread over up to several periods, also for the periods (559, 561, 672, 801 ms) at which the f64 quotient of two periods is below 2.0; "
-        "non-trivial = some caller had to wait or was rejected")
+RULE = ("as C02; callers are polled whenever woken (bursts, crowds) and also lazily (random); drops while sleeping; idle gaps of (about) two periods followed by limit+1 fresh callers at one "
+        "instant or spread over up to several periods, also for the periods (559, 561, 672, 801 ms) at which the f64 quotient of two periods is below 2.0; refresh_period 0 / Duration::MAX / "
+        "beyond Instant's range with timeouts 0 / finite / Duration::MAX; non-trivial = some caller had to wait or was rejected")
 
 
 def monitor(s, t):
     """The property over the implementation's trace, nothing else. Readings left open by the text are all accepted:
     'arrival' is the first poll for the deadline clauses (the latest reading) and the earlier of call()/first poll for the
     later-window clause (the weakest demand); callers already waiting count as possible owners of spare capacity (a
-    first-come-first-served limiter is allowed); windows may be aligned to anything."""
+    first-come-first-served limiter is allowed); windows may be aligned to anything. Deliberately NOT demanded (the text does not):
+    that a caller without a permit is made to wait rather than rejected at once."""
     d = decode(s, t)
     if d is None:
         return "malformed or panicking run: %s" % t[:12]
-    wt, limit, P, timeout, n = s[:NCFG]
-    if limit < 1 or P <= 0:
+    wt, limit = s[0], s[1]
+    P, timeout, n = dur(s[2]), dur(s[3]), s[4] % 1000
+    if limit < 1 or P < 0:
         return None
     K = 3 if wt == 2 else 1      # every admission the window type can still count lies within the last K periods
     now = 0
-    first, called, state, nstarts = {}, {}, {}, {}
+    first, called, state, nstarts, inner_panic = {}, {}, {}, {}, set()
     adm = []                 # (instant, arrival of the caller if it had to wait else None)
     last_touch = None        # last instant at which the limiter may have been consulted (a call() or a poll of an undecided caller)
     gap_adm = 0              # admissions since the limiter was created / since the end of the last idle gap of two periods
     for (e, o) in d:
         op, a, b = e
         r, started, infl, mask = o
-        if op == 3:
+        if op in (3, 6):
             now += max(0, a)
             for i, st in state.items():
                 if st == 'wait' and first[i] + timeout <= now and not (mask >> i) & 1:
                     return "caller %d is still asleep at %d, beyond its arrival %d + timeout %d (not woken)" % (i, now, first[i], timeout)
+            if started:
+                # somebody's request reached the inner service while only the clock moved: an admission all the same
+                gap_adm += started
+                adm += [(now, None)] * started
         elif op == 2:
             state[a] = 'end'
+            if started:
+                gap_adm += started
+                adm += [(now, None)] * started
+        elif op == 4:
+            if b == 2:
+                inner_panic.add(a)
+            if started:
+                gap_adm += started
+                adm += [(now, None)] * started
         elif op == 5:
             if state.get(a, 'new') == 'new':
                 called.setdefault(a, now)
                 if last_touch is not None and now - last_touch >= 2 * P:
                     gap_adm = 0
                 last_touch = now
+            if started:
+                # the request reached the inner service in call(), before any decision: counts as this caller's
+                gap_adm += started
+                adm += [(now, None)] * started
+                nstarts[a] = nstarts.get(a, 0) + started
+                if nstarts[a] > 1:
+                    return "caller %d reached the inner service %d times" % (a, nstarts[a])
         elif op == 1:
             i = a
             st = state.get(i, 'new')
             if st == 'end':
+                if started:
+                    return "polling the finished caller %d made %d inner call(s)" % (i, started)
                 continue
             if started > 1:
                 return "caller %d's request reached the inner service %d times in one poll" % (i, started)
@@ -54,7 +78,7 @@ def monitor(s, t):
                 first[i] = now
                 called.setdefault(i, now)
                 waiting = sum(1 for x in state.values() if x == 'wait')
-                if not started:
+                if not started and not nstarts.get(i) and r != 5:
                     # admitted at once when the current window has spare capacity: whatever the window alignment, all
                     # admissions the limiter can still hold against this caller lie within the last K periods
                     recent = sum(1 for (x, _) in adm if now - K * P < x <= now)
@@ -75,18 +99,24 @@ def monitor(s, t):
                 if nstarts.get(i):
                     return "rejected caller %d reached the inner service" % i
                 state[i] = 'end'
-            elif r in (1, 2, 5):
-                if r in (1, 2) and not nstarts.get(i):
+            elif r == 5:
+                # a panic is a decision only when it is the inner service's own (scripted) panic coming through an admitted call
+                if not (nstarts.get(i) and i in inner_panic):
+                    return ("caller %d's call panicked at %d instead of being admitted or rejected with the rate-limited error "
+                            "(no inner-service panic was scripted for it)" % (i, now))
+                state[i] = 'end'
+            elif r in (1, 2):
+                if not nstarts.get(i):
                     return "caller %d got the inner service's result without its request having reached the inner service" % i
                 state[i] = 'end'
             elif r == 0:
-                if started or st == 'run':
+                if nstarts.get(i):
                     state[i] = 'run'
                 else:
                     state[i] = 'wait'
                     if now >= first[i] + timeout:
                         return "caller %d polled at %d is still undecided at/after its arrival %d + timeout %d" % (i, now, first[i], timeout)
-    if wt == 0:
+    if wt == 0 and P > 0:
         # fixed window: a caller admitted after waiting took a permit of a later window: some valid cut of time into
         # windows puts a cut between its arrival and its admission
         times = [x for (x, _) in adm]
